@@ -8,6 +8,7 @@
 use choice::{Choice, Never};
 use serde::{Deserialize, Serialize};
 use serde_json::{json, Value};
+use stateright::actor::ordered_reliable_link::{ActorWrapper, MsgWrapper, StateWrapper, TimerWrapper};
 use stateright::actor::register::{RegisterActor, RegisterActorState, RegisterMsg};
 use stateright::actor::write_once_register::{WORegisterActor, WORegisterActorState, WORegisterMsg};
 use stateright::actor::*;
@@ -118,6 +119,47 @@ impl SmallInt for u8 {
 impl SmallInt for () {
     fn to_u8(&self) -> u8 {
         0
+    }
+}
+
+impl SmallInt for TimerWrapper<()> {
+    fn to_u8(&self) -> u8 {
+        match self {
+            TimerWrapper::Network => 1,
+            TimerWrapper::User(_) => 2,
+        }
+    }
+}
+impl MsgCodec for MsgWrapper<u16> {
+    fn enc(i: u16) -> Self {
+        MsgWrapper::Deliver(0, i)
+    }
+    fn dec(&self) -> Value {
+        match self {
+            MsgWrapper::Deliver(seq, m) => json!({"k": "deliver", "seq": seq, "m": m}),
+            MsgWrapper::Ack(seq) => json!({"k": "ack", "seq": seq, "m": 0}),
+        }
+    }
+}
+
+/// wrapped actor for the ordered-reliable-link checks: sends its script at start, records what it is handed
+#[derive(Clone, Debug)]
+pub struct OrlScript {
+    pub sends: Vec<(Id, u16)>,
+}
+impl Actor for OrlScript {
+    type Msg = u16;
+    type State = Vec<(Id, u16)>;
+    type Timer = ();
+    type Random = ();
+    fn on_start(&self, _id: Id, o: &mut Out<Self>) -> Self::State {
+        for (d, m) in &self.sends {
+            o.send(*d, *m);
+        }
+        Vec::new()
+    }
+    fn on_msg(&self, _id: Id, state: &mut Cow<Self::State>, src: Id, msg: u16, _o: &mut Out<Self>) {
+        state.to_mut().push((src, msg));
     }
 }
 
@@ -663,6 +705,26 @@ pub fn record_system(sysi: usize, sys: &SysJ, out: &mut dyn Write, real_counts: 
                 .collect();
             let m = configure(sys, actors);
             record_graph(sysi, sys, &m, &|s: &usize| json!(*s), out, real_counts, None);
+        }
+        "orl" => {
+            let actors: Vec<ActorWrapper<OrlScript>> = sys
+                .scripts
+                .iter()
+                .map(|sc| ActorWrapper::with_default_timeout(OrlScript { sends: sc.iter().map(|e| (Id::from(e.dst as usize), e.msg)).collect() }))
+                .collect();
+            let m = configure(sys, actors);
+            let ps = |s: &StateWrapper<u16, Vec<(Id, u16)>>| {
+                let (pending, last, handed, next) = s.verif_parts();
+                let mut p: Vec<(u64, usize, u16)> = pending.into_iter().map(|(q, d, m)| (q, usize::from(d), m)).collect();
+                p.sort();
+                let mut l: Vec<(usize, u64)> = last.into_iter().map(|(k, v)| (usize::from(k), v)).collect();
+                l.sort();
+                json!({"next": next,
+                       "pending": p.into_iter().map(|(q, d, m)| json!({"seq": q, "dst": d, "m": m})).collect::<Vec<_>>(),
+                       "last": l.into_iter().map(|(k, v)| json!({"src": k, "seq": v})).collect::<Vec<_>>(),
+                       "handed": handed.iter().map(|(sr, m)| json!({"src": usize::from(*sr), "m": m})).collect::<Vec<_>>()})
+            };
+            record_graph(sysi, sys, &m, &ps, out, real_counts, None);
         }
         w => panic!("wrap {w}"),
     }
